@@ -285,6 +285,36 @@ class Ranges:
                     ok_edge = ('else' not in vals and vals == [0])
                     if tr and ok_edge:
                         out.append((canon(B, d[3]['args'][0]), tr[0], tr[1]))
+        # `xs.first()` / `xs.last()` / `xs.split_first()` (also behind ok_or(..)? and copies) is Some  =>  xs is not empty
+        if sd and not sd[0].get('p') and 'else' not in vals and len(vals) == 1:
+            ty_ = sd[1]
+            ok_d = 1 if 'core::option::Option<' in ty_ else (0 if ('core::result::Result<' in ty_ or 'ControlFlow<' in ty_) else None)
+            if ok_d is not None and vals[0] == ok_d:
+                l_ = sd[0]['l']
+                for _ in range(8):
+                    d = B.single_def(l_)
+                    if d is None:
+                        break
+                    if d[0] == 's':
+                        rv_ = d[3]['rv']
+                        if rv_['k'] == 'use' and rv_['op'].get('k') in ('cp', 'mv') and not rv_['op']['pl'].get('p'):
+                            l_ = rv_['op']['pl']['l']
+                            continue
+                        break
+                    g, r = callee_of(d[3])
+                    nm = r or g or ''
+                    a0 = d[3]['args'][0] if d[3]['args'] else None
+                    if a0 is None:
+                        break
+                    if (g or '').endswith('Try::branch') or nm.endswith('Option::<T>::ok_or') or nm.endswith('Option::<T>::ok_or_else') or nm.endswith('Result::<T, E>::map_err') \
+                            or nm.endswith('Option::<T>::copied') or nm.endswith('Option::<T>::cloned') or nm.endswith('Option::<T>::as_ref'):
+                        if a0.get('k') in ('cp', 'mv') and not a0['pl'].get('p'):
+                            l_ = a0['pl']['l']
+                            continue
+                        break
+                    if nm.rsplit('::', 1)[-1] in ('first', 'last', 'split_first', 'split_last', 'first_mut', 'last_mut') and ('slice' in nm or 'Vec' in nm or 'VecDeque' in nm):
+                        out.append((('len', canon(B, a0)), 1, LEN_MAX))
+                    break
         # `cond.then_some(v)` / `cond.then(|| v)`: Some exactly when cond holds
         if sd and 'core::option::Option<' in sd[1] and not sd[0].get('p'):
             d = B.single_def(sd[0]['l'])
@@ -384,6 +414,68 @@ class Ranges:
                    for n in names):
                 return out
         return out
+
+    # ---- disequalities ------------------------------------------------------
+    def ne_zero_at(self, bb):
+        """canon values shown different from zero by a test every path to bb has passed (x == 0 failed, x != 0 held,
+        `match x { 0 => .., _ => here }`) - the part of `x != 0` an interval cannot hold when x is signed."""
+        key = ('ne0', bb)
+        if key in self._facts:
+            return self._facts[key]
+        B = self.B
+        out = set()
+        self._facts[key] = out
+
+        def from_bool(source, truth):
+            if source[0] != 'bin':
+                return
+            rv = source[2]
+            op = rv['op']
+            if op in ('BitAnd', 'BitOr'):
+                if (op == 'BitAnd' and truth) or (op == 'BitOr' and not truth):
+                    for side in (rv['a'], rv['b']):
+                        s2, neg = B.bool_source(side)
+                        from_bool(s2, truth != neg)
+                return
+            if op not in ('Eq', 'Ne'):
+                return
+            if (op == 'Ne') != truth:
+                return
+            for x, z in ((rv['a'], rv['b']), (rv['b'], rv['a'])):
+                if z['k'] == 'c' and z.get('v') == 0:
+                    out.add(canon(B, x))
+
+        for (src, vals, dst) in dominating_edges(B, bb):
+            t = B.blocks[src]['t']
+            before = set(out)
+            if t['dty'] == 'bool':
+                sb = B.switch_bool_edges(src)
+                if sb is not None and sb[1] != sb[2]:
+                    from_bool(sb[0], dst == sb[1])
+            elif 'else' in vals and 0 not in vals and any(v == 0 for v, _ in t['cases']):
+                out.add(canon(B, t['d']))
+            for c in out - before:
+                if not self._stable_after(c, dst):
+                    out.discard(c)
+        return out
+
+    def nonzero(self, op, bb, _c=None, _depth=0):
+        """True when the value is shown to differ from zero at bb."""
+        B = self.B
+        c = _c if _c is not None else canon(B, op)
+        if _c is None:
+            r = self.range_of(op, bb)
+            if r[0] > 0 or r[1] < 0:
+                return True
+        if c in self.ne_zero_at(bb):
+            return True
+        if _depth < 6 and isinstance(c, tuple) and c and c[0] == 'call' and str(c[1]).rsplit('::', 1)[-1] in ('unsigned_abs', 'abs', 'wrapping_abs'):
+            ct = B.blocks[c[2]]['t']
+            if ct['k'] == 'call' and ct['args']:
+                return self.nonzero(ct['args'][0], bb, _depth=_depth + 1)
+        if _depth < 6 and isinstance(c, tuple) and c and c[0] == 'un' and c[1] == 'Neg':
+            return self.nonzero(None, bb, _c=c[2], _depth=_depth + 1)
+        return False
 
     # ---- value ranges ------------------------------------------------------
     def range_of(self, op, bb, use_facts=True, _depth=0):
